@@ -58,6 +58,13 @@ def build(e):
             return jnp.where(ev(e[1], X) > q(e[2]), ev(e[3], X), ev(e[4], X))
         if k == "cond":
             return jax.lax.cond(ev(e[1], X) > q(e[2]), lambda Y: ev(e[3], Y), lambda Y: ev(e[4], Y), X)
+        if k == "dynidx":
+            v = ev(e[1], X)
+            return v[jnp.argmax(v)]
+        if k == "take21":
+            return jnp.take(ev(e[1], X), jnp.array([1, 0]))
+        if k == "clip11":
+            return jnp.clip(ev(e[1], X), -1, 1)
         if k == "intfloor":
             return ev(e[1], X).astype(jnp.int32).astype(jnp.float32)
         raise ValueError(k)
